@@ -174,6 +174,34 @@ macro_rules! la_type {
                 } }
                 let (e0, v0) = smallest_ev(sa.clone());
                 rep.check(&format!("{key}|smallest_ev|n{n}"), maxabs(&(e0 - d[0])) + (0..n).map(|i| maxabs(&(v0[i] - v[(i, 0)]))).fold(0.0, f64::max), etol, || json!({"n": n}));
+                // ---------------- structured symmetric matrices: constant diagonal, tridiagonal coupling of either sign.  The
+                //                  rotated pair has EQUAL diagonal entries (theta = +-0: the 45 degree rotation, whose sign comes
+                //                  from the sign of a zero); the spectrum c + 2 s cos(k pi / (n + 1)) is simple
+                if n >= 2 && n <= 5 {
+                    for (ci, (cdiag, coup)) in [(2.0, -1.0), (2.0, 1.0), (-0.5, -0.75), (0.0, 1.5)].iter().enumerate() {
+                        let mut t_na = DMatrix::<T>::from_fn(n, n, |_, _| T::from(0.0));
+                        for i in 0..n { for j in i..n {
+                            let re = if i == j { *cdiag } else if j == i + 1 { *coup } else { 0.0 };
+                            let v = mk(&mut rng, re); t_na[(i, j)] = v; t_na[(j, i)] = v;
+                        } }
+                        let ta = Array2::<T>::from_shape_fn((n, n), |(i, j)| t_na[(i, j)]);
+                        let (d, v) = jacobi_eigenvalue(ta.clone(), 200);
+                        let mut e1 = 0.0f64; let mut e2 = 0.0f64;
+                        for i in 0..n { for k in 0..n {
+                            let mut acc = -(v[(i, k)] * d[k]);
+                            for j in 0..n { acc = acc + t_na[(i, j)] * v[(j, k)]; }
+                            e1 = e1.max(maxabs(&acc));
+                            let mut o = if i == k { -T::from(1.0) } else { T::from(0.0) };
+                            for j in 0..n { o = o + v[(j, i)] * v[(j, k)]; }
+                            e2 = e2.max(maxabs(&o));
+                        } }
+                        rep.check(&format!("{key}|jacobi constant diagonal A V = V L|n{n}"), e1, etol, || json!({"n": n, "diag": cdiag, "coupling": coup, "family": ci}));
+                        rep.check(&format!("{key}|jacobi constant diagonal V^T V = I|n{n}"), e2, etol, || json!({"n": n, "diag": cdiag, "coupling": coup}));
+                        let want: Vec<f64> = { let mut w: Vec<f64> = (1..=n).map(|k| cdiag + 2.0 * coup * (k as f64 * std::f64::consts::PI / (n as f64 + 1.0)).cos()).collect(); w.sort_by(|a, b| a.partial_cmp(b).unwrap()); w };
+                        let e3 = (0..n).map(|k| (d[k].re() - want[k]).abs()).fold(0.0, f64::max);
+                        rep.check(&format!("{key}|jacobi constant diagonal spectrum|n{n}"), e3, 1e-9, || json!({"n": n, "got": (0..n).map(|k| d[k].re()).collect::<Vec<_>>(), "want": want}));
+                    }
+                }
                 // nalgebra's symmetric_eigen over the dual scalar: same identities (unordered spectrum)
                 let se = s_na.clone().symmetric_eigen();
                 let (mut e3, mut e3re, mut e3first) = (0.0f64, 0.0f64, 0.0f64);
